@@ -2,7 +2,7 @@
 # usage: verify_seed.sh <seed dir> <worktree dir>
 # In a scratch worktree at /repo HEAD: demo passes clean, fails patched, baseline passes patched.
 d=$1; wt=$2
-id=$(basename $(dirname $d))_$(basename $d)
+id=$(basename $(dirname $(dirname $d)))_$(basename $(dirname $d))_$(basename $d)
 out=/tmp/seedverify/$id; rm -rf $out; mkdir -p $out
 cd $wt || exit 2
 git reset -q --hard; git clean -fdq
